@@ -4,17 +4,17 @@ import SFModel.Window
 namespace SF.Drv
 open SF SExp SF.Window
 
-def ofWins (ws : List Win) : SExp :=
+private def ofWins (ws : List Win) : SExp :=
   .list (ws.map fun w => ofNats [w.1, w.2.1, w.2.2])
 
 /-- `window_valid` family used by the harness: `N` accepts everything, `q` rejects every window that
     contains position `q`. -/
-def validOf (excl : Option Int) (lo len : Nat) : Bool :=
+private def validOf (excl : Option Int) (lo len : Nat) : Bool :=
   match excl with
   | none => true
   | some q => !(decide ((lo : Int) ≤ q) && decide (q < (lo : Int) + len))
 
-def winArgs? : List SExp → Option (Nat × WinParams × Option Int)
+private def winArgs? : List SExp → Option (Nat × WinParams × Option Int)
   | [n, size, step, sized, ls, ss, inc, excl] => do
       let n ← nat? n; let size ← int? size; let step ← int? step; let sized ← bool? sized
       let ls ← int? ls; let ss ← int? ss; let inc ← int? inc; let excl ← optInt? excl
